@@ -158,6 +158,10 @@ def r3_casts(rep, facts):
                 rep.ok(R, key, 'lossless by type', facts.loc(b, c))
                 continue
             why = guarded(c, anc, to)
+            if why is None:
+                from .shared import TABULATED
+                if d in TABULATED:
+                    why = f'no dominating check in the source, but every evaluation of the {TABULATED[d]} tabulation keeps the operand in range (casts are checked there)'
             rep.check(R, key, why is not None, why or '', f'`{d}` casts {frm} as {to} without a dominating range check on the operand: '
                       f'out-of-range values wrap silently', facts.loc(b, c))
     # serialize_u64 / visit_u64 are checked
@@ -181,21 +185,41 @@ def r3_casts(rep, facts):
 
 
 def writer_table(facts, d, src):
+    """which `write!` the body reaches for each representative float: the body is followed as a decision tree (let / if / match in any nesting,
+    conditions evaluated over IEEE doubles), whatever its syntactic form"""
     b = facts.body(d)
-    m = peel(b['body'].get('expr') or {})
-    if m.get('k') != 'match':
-        raise AnalysisIncomplete(f'{d}: body is not a case table')
     it = FloatInterp(Evaluator(facts))
     selfv = [p['name'] for p in b['params'] if p.get('k') == 'p_bind' and p['name'].startswith('self')][0]
     fm = {f['line']: f['lit'] for f in src['fmts'] if f['file'].endswith('toml_write/src/value.rs')}
 
-    def descr(e, env):
-        e = peel(e)
-        if e.get('k') == 'if':
+    def descr(e, env, depth=0):
+        if depth > 40:
+            raise Unanalysable('decision tree too deep')
+        k = e.get('k')
+        if k == 'block':
+            env = dict(env)
+            for st in e.get('stmts', []):
+                if st.get('k') == 'let' and 'init' in st:
+                    it.bind(st['pat'], it.run(st['init'], env), env)
+                elif st.get('k') == 'semi' and peel(st['e']).get('k') in ('if', 'match', 'block'):
+                    raise Unanalysable('statement-position branch in a float writer')
+            if e.get('expr') is not None:
+                return descr(e['expr'], env, depth + 1)
+            raise Unanalysable('float writer block without a value')
+        if k == 'if':
             c = it.run(e['cond'], env)
-            return descr(e['then'] if c else e['else'], env)
-        if e.get('k') == 'block' and e.get('expr') is not None:
-            return descr(e['expr'], env)
+            if c:
+                return descr(e['then'], env, depth + 1)
+            if 'else' not in e:
+                raise Unanalysable('if without else in a float writer')
+            return descr(e['else'], env, depth + 1)
+        if k == 'match' and 'TryDesugar' not in (e.get('src') or ''):
+            sc = it.run(e['scrut'], env)
+            for arm in e['arms']:
+                e2 = dict(env)
+                if it.matches(arm['pat'], sc, e2) and ('guard' not in arm or arm['guard'] is None or it.run(arm['guard'], e2)):
+                    return descr(arm['body'], e2, depth + 1)
+            raise Unanalysable('no arm matches')
         lits = [n.get('v') for n in walk(e) if n.get('k') == 'lit' and n.get('lk') == 'str']
         if lits:
             return lits[0]
@@ -205,17 +229,7 @@ def writer_table(facts, d, src):
         raise Unanalysable(f'cannot describe the output at line {l}')
     table = {}
     for name, v in FLOAT_REPS.items():
-        env = {selfv: v}
-        sc = it.run(m['scrut'], env)
-        chosen = None
-        for arm in m['arms']:
-            e2 = dict(env)
-            if it.matches(arm['pat'], sc, e2) and ('guard' not in arm or it.run(arm['guard'], e2)):
-                chosen = arm
-                break
-        if chosen is None:
-            raise Unanalysable('no arm matches')
-        table[name] = descr(chosen['body'], env)
+        table[name] = descr(b['body'], {selfv: v})
     return b, table
 
 
